@@ -236,6 +236,14 @@ impl Workspace {
     }
 
     pub fn rewind_to_checkpoint(&self, session_id: &str, checkpoint_id: &str) -> io::Result<()> {
+        // The ids name directories inside the checkpoint store; a separator or a parent segment
+        // would lead the lookup, and the reads of the stored copies, out of it.
+        if !is_plain_name(session_id) || !is_plain_name(checkpoint_id) {
+            return Err(io::Error::new(
+                io::ErrorKind::InvalidInput,
+                "checkpoint ids must be plain names",
+            ));
+        }
         let checkpoint_root = self.checkpoints_dir.join(session_id).join(checkpoint_id);
         let metadata_path = checkpoint_root.join("checkpoint.json");
         let payload = fs::read(&metadata_path)?;
@@ -365,6 +373,14 @@ fn hash_bytes(bytes: &[u8]) -> String {
     hasher.update(bytes);
     let digest = hasher.finalize();
     hex::encode(digest)
+}
+
+fn is_plain_name(id: &str) -> bool {
+    let mut parts = Path::new(id).components();
+    matches!(
+        (parts.next(), parts.next()),
+        (Some(Component::Normal(_)), None)
+    )
 }
 
 fn normalize_rel(path: &Path) -> String {
